@@ -6,7 +6,7 @@ Import ListNotations.
 Open Scope Z_scope.
 
 Definition row (l r : Z) (sa : list widf) (concat : bool) : rec :=
-  mkRec 19 true false (NumLit l) (NumLit r) (NumLit 100) None (Some (match sa with [] => 0 | _ => 2 end)) sa [] [] true concat.
+  mkRec 19 true false (NumLit l) (NumLit r) (NumLit 100) None (Some (match sa with [] => 0 | _ => 2 end)) sa [] [] true concat false.
 
 Definition m32 : list cline := [[]; [TNum 3; TNum 2]; [TNum 2; TNum 1; TNum 7]; []; [TNum 0; TNum 0; TNum (-5)]].
 
@@ -55,7 +55,7 @@ Qed.
 Definition pinned_bfacts : bfacts :=
   mkBFacts [mkG CastNone CGe (ODim NumLeft)] [] [mkG CastNone CGe (ODim NumRight)] []
            (mkG CastNone CGe (OConst 0)) CGe (mkG CastNone CGt (OConst 127)) 268435455
-           true false [mkG CastNone CLt (OConst 0)] [mkG CastNone CLt (OConst 0)] 2 3 [] []
+           true false false [mkG CastNone CLt (OConst 0)] [mkG CastNone CLt (OConst 0)] 2 3 [] []
            (IAdd (IMul IRight INumLeft) ILeft) (IAdd (IMul IRight INumLeft) ILeft) KRightId KLeftId.
 
 Example pinned_guards_fail_obligation : bfacts_ok pinned_bfacts = false.
@@ -85,6 +85,12 @@ Proof. eexists. vm_compute. split; reflexivity. Qed.
 Example success_means_valid_refuted_pinned_nonsquare :
   exists d, build_with pinned_bfacts (mkInput (SystemDic m32) [row 2 1 [] true]) = Ok d /\ dict_valid d = false.
 Proof. eexists. vm_compute. split; reflexivity. Qed.
+
+(* a surface containing U+0000 reaches an assertion of the trie builder *)
+Example compile_never_panics_refuted_pinned_nul_surface :
+  build_with pinned_bfacts (mkInput (SystemDic m32)
+    [mkRec 19 true false (NumLit 0) (NumLit 0) (NumLit 1) None (Some 0) [] [] [] true true true]) = Panic.
+Proof. vm_compute. reflexivity. Qed.
 
 (* a lexicon without indexed entries reaches the assertion of the trie builder *)
 Example compile_never_panics_refuted_pinned_no_indexed :
